@@ -169,6 +169,8 @@ def impl_cases(payload):
         if mode == 'py_func':
             numba.prange = _patched_prange(ci)
         try:
+            if mode != 'py_func':
+                numba.set_num_threads((16, 1, 2, 5)[ci % 4])     # entry thread count left by earlier numba code
             ps, st, ws = f(pos, c['np'], c['box'], weights=w, coord=c['coord'], nthread=c['nthread'], sort=c['sort'])
             unmod = bool(np.array_equal(pos, pos0) and (w is None or np.array_equal(w, w0)))
             shape_ok = (ps.shape == pos.shape and ps.dtype == pos.dtype and st.shape == (c['np'] + 1,)
